@@ -177,6 +177,24 @@ def partitions(tier, seed):
                            '    return same_bytes(got, ref.properties(spec.PROPERTIES, vals, epoch_of=epoch_of))\n',
                       prelude=PRE, timeout=120, family='enc_header', bound='Basic.Properties.marshal() with 4 symbolic properties (timestamp: any instant, microsecond, utc offset)',
                       rep={'prio': 0, 'dm': 1, 'ct': '', 'ts': 7, 'us': 5, 'off': -3600}, tz_replay=True))
+    # the grammar fixes the weight field of a content header to zero whatever the object holds (a header decoded
+    # from a peer and relayed, or built with weight=n)
+    parts.append(Part(name='enc_header_weight',
+                      params=[('ch', 'int'), ('w', 'int'), ('size', 'int'), ('prio', 'int'), ('data', 'bytes')],
+                      pre=['0 <= ch <= 65535', '0 <= w <= 65535', '0 <= size < 2**64', '0 <= prio <= 255', 'len(data) == 2'],
+                      body='def body(ch, w, size, prio, data):\n'
+                           '    vals = dict(priority=prio)\n'
+                           '    want = ref.content_header_frame(ch, size, spec.PROPERTIES, vals)\n'
+                           '    h = header.ContentHeader(w, size, commands.Basic.Properties(**vals))\n'
+                           '    ok = same_bytes(frame.marshal(h, ch), want)\n'
+                           '    wb = hx.blist(data, 2)\n'
+                           '    wire = hx.buf([2, 0, 1, 0, 0, 0, 15, 0, 60, wb[0], wb[1], 0, 0, 0, 0, 0, 0, 0, 5, 0x08, 0, 7, 0xCE])\n'
+                           '    g = frame.unmarshal(wire)[2]\n'
+                           '    return ok and same_bytes(frame.marshal(g, 1), ref.content_header_frame(1, 5, spec.PROPERTIES, dict(priority=7)))\n',
+                      prelude=PRE, timeout=120, family='enc_header',
+                      bound='ContentHeader(weight, body_size, Properties(priority)) with any 16-bit weight and any 64-bit '
+                            'size; a header decoded from a wire frame with an arbitrary weight field and marshalled again',
+                      rep={'ch': 1, 'w': 513, 'size': 5, 'prio': 7, 'data': {'__bytes__': '0102'}}))
     for n in range(1, 9 if q else 17):
         parts.append(Part(name='enc_body_%d' % n, params=[('ch', 'int'), ('content', 'bytes')],
                           pre=['0 <= ch <= 65535', 'len(content) == %d' % n],
